@@ -704,7 +704,9 @@ func (tr *trans) ret(x *ssa.Return, st State) {
 		}
 		env.vars[fmt.Sprintf("result%d", i)] = sv
 		if i == len(x.Results)-1 && types.Identical(sig.Results().At(i).Type(), types.Universe.Lookup("error").Type()) {
-			env.vars["err"] = sv
+			if _, taken := env.vars["err"]; !taken {
+				env.vars["err"] = sv
+			}
 		}
 	}
 	line := tr.srcText(x.Pos())
@@ -729,6 +731,10 @@ func (tr *trans) ret(x *ssa.Return, st State) {
 
 func (tr *trans) frameObligations(st State, k int, pos token.Pos) {
 	if tr.fc == nil || !tr.fc.HasModifies || !tr.final {
+		return
+	}
+	if tr.fc.Opts["trusted_frame"] == "true" {
+		tr.note("the modifies clause (frame) of " + tr.key + " is assumed, not proved: its callees are over-approximated by havoc")
 		return
 	}
 	reach := tr.reach[tr.curB.Index]
